@@ -138,7 +138,7 @@ def case(job):
 
 def run(tier, seed):
     rep = Report(PROP, tier, seed, "exploration")
-    sizes = [1, 2, 3, 4, 5, 16] if tier == "quick" else [1, 2, 3, 4, 5, 7, 8, 16, 17]
+    sizes = [1, 2, 3, 4, 5, 16] if tier == "quick" else [1, 2, 3, 4, 5, 7, 8, 16, 17, 31, 32, 64, 90]
     rep.rule = (
         "5 sampler variants x map shapes (ny, nx) in %r squared x {scalar, RGB} x request shapes; per cell 6 interior and 8 boundary points, "
         "each at longitude shifts of %r turns (Galactic: interior points only, after an astropy Galactic->ICRS conversion); "
